@@ -384,19 +384,23 @@ class AnnounceFlow(ParseAnnounce):
 
 @ParseAnnounce.register_family(AFI.ipv4, SAFI.flow_ip, ActionTarget.SCOPE, ActionOperation.EXTEND, ActionKey.NAME)
 def flow_ip_v4(tokeniser: Tokeniser) -> list[Route]:
+    tokeniser.afi = AFI.ipv4  # the family of the command, not the one the previous command left behind
     return _build_route(tokeniser, AnnounceFlow.schema, AFI.ipv4, SAFI.flow_ip)
 
 
 @ParseAnnounce.register_family(AFI.ipv4, SAFI.flow_vpn, ActionTarget.SCOPE, ActionOperation.EXTEND, ActionKey.NAME)
 def flow_vpn_v4(tokeniser: Tokeniser) -> list[Route]:
+    tokeniser.afi = AFI.ipv4  # the family of the command, not the one the previous command left behind
     return _build_route(tokeniser, AnnounceFlow.schema, AFI.ipv4, SAFI.flow_vpn)
 
 
 @ParseAnnounce.register_family(AFI.ipv6, SAFI.flow_ip, ActionTarget.SCOPE, ActionOperation.EXTEND, ActionKey.NAME)
 def flow_ip_v6(tokeniser: Tokeniser) -> list[Route]:
+    tokeniser.afi = AFI.ipv6  # the family of the command, not the one the previous command left behind
     return _build_route(tokeniser, AnnounceFlow.schema, AFI.ipv6, SAFI.flow_ip)
 
 
 @ParseAnnounce.register_family(AFI.ipv6, SAFI.flow_vpn, ActionTarget.SCOPE, ActionOperation.EXTEND, ActionKey.NAME)
 def flow_vpn_v6(tokeniser: Tokeniser) -> list[Route]:
+    tokeniser.afi = AFI.ipv6  # the family of the command, not the one the previous command left behind
     return _build_route(tokeniser, AnnounceFlow.schema, AFI.ipv6, SAFI.flow_vpn)
